@@ -248,7 +248,9 @@ LEMMAS["general_position_reversal"] = {"kind": "smt", "params": ["a1", "a2", "a3
 # treats a lower-case letter as the same base; the clauses follow that reading.  (read_3d_structure itself only produces
 # upper-case letters: parser.py replaces every letter outside "ACGUTN" by the base detected from the atom names.)
 CHI_ATOMS = {"purine": ("O4'", "C1'", "N9", "C4"), "pyrimidine": ("O4'", "C1'", "N1", "C2")}
-SPEC_CONSTS = {"PURINES": ("A", "G", "a", "g"), "PYRIMIDINES": ("C", "U", "T", "c", "u", "t")}
+SPEC_CONSTS = {"PURINES": ("A", "G", "a", "g"), "PYRIMIDINES": ("C", "U", "T", "c", "u", "t"),
+               # one-letter names that say neither (every other ASCII letter in both cases, the digits' place holder '?' and 'X'/'N' among them)
+               "OTHER_LETTERS": tuple(ch for ch in "BDEFHIJKLMNOPQRSVWXYZbdefhijklmnopqrsvwxyz?*-.")}
 CASE_MAP_UNINTERPRETED = True  # str.upper() of a residue name of unknown length (exact on one ASCII character)
 
 
@@ -301,9 +303,9 @@ CONTRACTS["Residue3D.__chi_pyrimidine"] = _chi_helper("pyrimidine", "__chi_pyrim
 
 class chi_c:
     """cached property Residue3D.chi.  What C18 pins: a purine's chi is the purine torsion, a pyrimidine's the pyrimidine
-    torsion, each NaN when one of its four atoms is missing.  NOT pinned by C18: residues whose letter is neither (e.g. 'n',
-    'N', 'X') - the code tries the purine atoms first, then the pyrimidine atoms; clause 2 only says that the value is one of
-    the two torsions or NaN."""
+    torsion, each NaN when one of its four atoms is missing.  Residues whose letter is neither (e.g. 'N', 'X', '?'): clause 3 - the purine quadruple decides when its atoms are
+    present (IUPAC: the base bonded through N9 is a purine), else the pyrimidine quadruple; clause 2 is the weaker statement
+    kept for call sites."""
     target = "Residue3D.chi"
     params = {"self": "Residue3D"}
     requires = [_chi_requires("self", "purine"), _chi_requires("self", "pyrimidine")]
@@ -316,8 +318,14 @@ class chi_c:
     modifies = []
     ensures = [f"implies(self.one_letter_name in PURINES, {_chi_is('result', 'self', 'purine')})",
                f"implies(self.one_letter_name in PYRIMIDINES, {_chi_is('result', 'self', 'pyrimidine')})",
-               f"({_chi_is('result', 'self', 'purine')}) or ({_chi_is('result', 'self', 'pyrimidine')}) or is_none(result)"]
-    ensures_labels = {0: "purine-chi-is-O4'-C1'-N9-C4", 1: "pyrimidine-chi-is-O4'-C1'-N1-C2", 2: "any-chi-is-one-of-the-two-or-NaN"}
+               f"({_chi_is('result', 'self', 'purine')}) or ({_chi_is('result', 'self', 'pyrimidine')}) or is_none(result)",
+               # a residue whose letter says neither (modified / unknown: 'N', '?', 'I', ...): the base bonded through N9 is a purine
+               # (IUPAC: chi = O4'-C1'-N9-C4), so when the purine quadruple is present it decides; a purine also has N1 and C2, so
+               # trying the pyrimidine quadruple first would report the wrong torsion for it
+               f"implies(self.one_letter_name in OTHER_LETTERS, "
+               f"ite({_present('self', CHI_ATOMS['purine'])}, {_chi_is('result', 'self', 'purine')}, {_chi_is('result', 'self', 'pyrimidine')}))"]
+    ensures_labels = {0: "purine-chi-is-O4'-C1'-N9-C4", 1: "pyrimidine-chi-is-O4'-C1'-N1-C2", 2: "any-chi-is-one-of-the-two-or-NaN",
+                      3: "unknown-letter:the-purine-quadruple-decides-when-present"}
 
 
 CONTRACTS["Residue3D.chi"] = chi_c
